@@ -37,6 +37,9 @@ type svc struct {
 type c18Case struct {
 	Root  svc `json:"root"`
 	RunMs int `json:"runms"`
+	// SlowBackoff: restarts wait 40..180 ms instead of 0.5..7 ms, so that the cancel is likely to fall into a back-off
+	// and a restart that ignores the cancel shows up far beyond any scheduling latency
+	SlowBackoff bool `json:"slowbackoff,omitempty"`
 }
 
 type event struct {
@@ -53,6 +56,7 @@ type recorder struct {
 	running map[string]*int32
 	incs    map[string]int
 	overlap []string
+	slow    bool
 }
 
 func (r *recorder) add(dn, kind string, inc int) {
@@ -110,6 +114,10 @@ func mkRunnable(r *recorder, s svc, dn string) Runnable {
 		n, unlock := fromContext(ctx)
 		n.bo.InitialInterval = time.Millisecond
 		n.bo.MaxInterval = 5 * time.Millisecond
+		if r.slow {
+			n.bo.InitialInterval = 80 * time.Millisecond
+			n.bo.MaxInterval = 120 * time.Millisecond
+		}
 		n.bo.Reset()
 		unlock()
 		b := s.Beh[len(s.Beh)-1]
@@ -193,7 +201,7 @@ func walk(s svc, dn, parent string, ti *treeInfo) {
 
 func runC18(c c18Case) (*vh.Violation, vh.Outcome) {
 	out := vh.Outcome{}
-	r := &recorder{start: time.Now(), running: map[string]*int32{}, incs: map[string]int{}}
+	r := &recorder{start: time.Now(), running: map[string]*int32{}, incs: map[string]int{}, slow: c.SlowBackoff}
 	ti := &treeInfo{parent: map[string]string{}, siblings: map[string][]string{}, spec: map[string]svc{}}
 	walk(c.Root, "root", "", ti)
 	// scheduling-lateness watchdog: a starved machine makes every time bound meaningless
@@ -320,7 +328,7 @@ func runC18(c c18Case) (*vh.Violation, vh.Outcome) {
 				}
 			}
 			if !again {
-				return vh.V("C18/failed-service-not-restarted", "%s failed (%s) at %v and was not started again before the cancel at %v (configured back-off <= 5 ms)\nhistory:\n%s%s", e.dn, behaviorOf(ti, e), e.t, tCancel, history(events, e.dn, ti), dump), out
+				return vh.V("C18/failed-service-not-restarted", "%s failed (%s) at %v and was not started again before the cancel at %v (configured back-off <= 5 ms, or <= 180 ms in a slow-back-off case)\nhistory:\n%s%s", e.dn, behaviorOf(ti, e), e.t, tCancel, history(events, e.dn, ti), dump), out
 			}
 			// 2b. group siblings running at that time observe cancellation (or end by themselves)
 			for _, sib := range ti.siblings[e.dn] {
@@ -356,10 +364,22 @@ func runC18(c c18Case) (*vh.Violation, vh.Outcome) {
 						since = x.t // a failure in scope any time during that incarnation may be what cancelled it
 					}
 				}
+				ctxFrom := since
+				for _, x := range events[:i] {
+					if x.dn == e.dn && x.inc == e.inc-2 && x.kind == "exit" {
+						ctxFrom = x.t
+					}
+				}
 				if doneAt >= 0 {
 					caused := false
 					for _, x := range events[:i] {
 						if x.kind == "fail" && x.t >= since-50*time.Millisecond && isAncestorScope(x.dn, e.dn) { // the supervisor may act on a failure some ms after it happened
+							caused = true
+						}
+						// The context of an incarnation is created when the previous one has been cleaned up, i.e. before the
+						// back-off: a failure in scope during that wait cancels it before it has started, and it is restarted
+						// with its group as soon as it returns. So a failure counts from the previous incarnation's exit on.
+						if x.kind == "fail" && x.t >= ctxFrom-50*time.Millisecond && isAncestorScope(x.dn, e.dn) {
 							caused = true
 						}
 						// a failure anywhere above also shows as the parent being entered again
@@ -425,7 +445,7 @@ func genC18(t *rapid.T) c18Case {
 	if len(root.Groups) == 0 {
 		root.Groups = [][]svc{{genSvc(t, "s0", 1, false), genSvc(t, "s1", 1, false)}}
 	}
-	return c18Case{Root: root, RunMs: rapid.IntRange(300, 500).Draw(t, "runms")}
+	return c18Case{Root: root, RunMs: rapid.IntRange(300, 500).Draw(t, "runms"), SlowBackoff: rapid.IntRange(0, 2).Draw(t, "slowbackoff") == 0}
 }
 
 func TestVerif_C18_Trees(t *testing.T) {
